@@ -18,6 +18,12 @@ pub struct ArchObj {
     pub pref: PathRef,
     pub mutable: bool,
     pub modified: bool,
+    /// writable handles: modified since the last successful flush/compact (the file on disk is
+    /// behind the handle while this is set)
+    pub dirty: bool,
+    /// writable handles: plain map of what the successful add / remove / rename calls of this
+    /// handle amount to (folded name → content); ground truth that shares no code with wow_mpq
+    pub map: std::collections::BTreeMap<String, Vec<u8>>,
     /// read-only handles: the same file opened through the Rust API
     pub reference: Option<Archive>,
     /// writable handles: a byte copy of the archive taken right after creation, driven through
